@@ -306,7 +306,7 @@ fn usize_as_f64_(n: usize) -> (r: f64) requires n < 9007199254740992 ensures r =
 //@endimpl
 
 //@impl file=dasp_signal/src/window/mod.rs header="impl<F, W> Iterator for Window<F, W>" as="impl<F, W> Window<F, W>"
-//@fn file=dasp_signal/src/window/mod.rs in="impl:<F, W> Iterator for Window<F, W>" name=next ret=r label=Window::next vis=pub "rules=R-subst:Self::Item=>F,R-subst:|_| v_f.to_sample::<F::Sample>()=>|_| { v_f.to_sample::<F::Sample>() }"
+//@fn file=dasp_signal/src/window/mod.rs in="impl:<F, W> Iterator for Window<F, W>" name=next ret=r label=Window::next vis=pub "rules=R-subst:Self::Item=>F"
 //@spec
         ensures
             r is Some, final(self).phase.step == old(self).phase.step,
